@@ -14,6 +14,7 @@ d.update({
   "toa256_base": F.TOA256_BASE_DEFAULT, "ci_base": F.CI_BASE_DEFAULT,
   "toa256_noise": F.TOA256_NOISE_DEFAULT, "rssi_noise": F.RSSI_NOISE_DEFAULT, "ci_noise": F.CI_NOISE_DEFAULT,
   "hyperframe": gsm_shared.GSM_HYPERFRAME,
+  "trxc_delay_max_ms": F.TRXC_DELAY_MAX_MS,
 })
 sig = inspect.signature(clck_gen.CLCKGen.__init__)
 d["ind_period"] = sig.parameters["ind_period"].default
@@ -48,6 +49,7 @@ def generate(run):
          "def rssiNoise : Int := %s" % vf.lean_int(d["rssi_noise"]),
          "def ciNoise : Int := %s" % vf.lean_int(d["ci_noise"]),
          "def hyperframe : Nat := %d" % d["hyperframe"],
+         "def trxcDelayMaxMs : Int := %s" % vf.lean_int(d["trxc_delay_max_ms"]),
          "def indPeriod : Nat := %d" % d["ind_period"],
          "def clckStart : Nat := %d" % d["clck_start"],
          "/-- burst type names, index = position in `list(BurstType)` -/",
